@@ -36,7 +36,11 @@ CHECKS["C12"] = dict(
 
 import glob, importlib, os
 for _f in sorted(glob.glob(os.path.join(os.path.dirname(os.path.abspath(__file__)), "fam_*.py"))):
-    _m = importlib.import_module(os.path.basename(_f)[:-3])
+    try:
+        _m = importlib.import_module(os.path.basename(_f)[:-3])
+    except Exception as _e:  # a family module under construction must not break the other checks
+        print("[check] warning: cannot import %s: %s" % (os.path.basename(_f), _e), file=sys.stderr)
+        continue
     CHECKS.update(getattr(_m, "CHECKS", {}))
 
 
